@@ -350,6 +350,12 @@ def bitop(op, a, b, ty):
     r = f(as_bv(a, bits), as_bv(b, bits))
     return z3.BV2Int(r, is_signed=(lo < 0))
 
+_SWITCH_ARMS = {}
+class Frame(dict):
+    """locals of one activation: index -> Cell, created lazily"""
+    def __missing__(s, k):
+        c = Cell(); s[k] = c; return c
+
 class Engine:
     FUEL = 400_000
     def __init__(s, fns, enums, feas_timeout_ms=250):
@@ -928,7 +934,7 @@ class Engine:
 
     def _run_fn(s, f, args):
         s.used_fns.add(f.name)
-        fr = {i: Cell() for i in f.locals}; fr[0] = Cell()
+        fr = Frame()          # cells are created on first use: `evaluate` has thousands of locals and is entered recursively
         for (i, _), v in zip(f.params, args): fr[i].v = v
         bb = 0
         while True:
@@ -945,6 +951,21 @@ class Engine:
                 m = RE_SWITCH.match(term)
                 v = s.operand(fr, m.group(1)); conds, tgts, seen = [], [], []
                 isb = z3.is_bool(v)
+                if z3.is_expr(v) and (z3.is_int_value(v) or z3.is_true(v) or z3.is_false(v)):
+                    # concrete discriminant (the usual case when the evaluator follows a concrete parse tree): no query, no fork
+                    pv = (1 if z3.is_true(v) else 0) if isb else v.as_long()
+                    arms = _SWITCH_ARMS.get(term)
+                    if arms is None:
+                        arms = []
+                        for arm in split_top(m.group(2)):
+                            k, t = arm.split(':'); arms.append((None if k.strip() == 'otherwise' else int(k), int(t.strip()[2:])))
+                        _SWITCH_ARMS[term] = arms
+                    tgt = None; other = None
+                    for k, t in arms:
+                        if k is None: other = t
+                        elif k == pv or (k == 255 and pv == -1 and not isb): tgt = t
+                    if tgt is None and other is None: raise Missing('switchInt without a matching arm: ' + term[:80])
+                    bb = tgt if tgt is not None else other; continue
                 for arm in split_top(m.group(2)):
                     k, t = arm.split(':'); t = int(t.strip()[2:])
                     if k.strip() == 'otherwise':
